@@ -395,6 +395,9 @@ func ReadComponent(r ParseReader) (Component, error) {
 }
 
 func parseCompTypeFromStr(s string) (TLNum, compValFmt, error) {
+	if len(s) == 0 {
+		return 0, compValFmtInvalid{}, ErrFormat{"empty component type"}
+	}
 	if IsAlphabet(rune(s[0])) {
 		if conv, ok := compConvByStr[s]; ok {
 			return conv.typ, conv.vFmt, nil
